@@ -81,6 +81,24 @@ func TestReplayC07CompileCorpus(t *testing.T) {
 			c07Compile(t, fmt.Sprintf("constraint %s on the path %s", l.label, p.label), c07Profile("Corpus", one, c07Validation("v1", body)))
 		}
 	}
+	// every constraint kind in negated position: under not, as the if of a conditional, under not inside or, under not inside nested
+	for _, l := range c07Leaves {
+		leafBody := "propertyConstraints:\n  ex.p:\n" + c07Indent(l.yaml, 4)
+		for pos, body := range map[string]string{
+			"under not":               "    not:\n" + c07Indent(leafBody, 6),
+			"as the if of a conditional": "    if:\n" + c07Indent(leafBody, 6) + "    then:\n      propertyConstraints:\n        ex.q:\n          minCount: 1\n",
+			"under not inside or":     "    or:\n      - not:\n" + c07Indent(leafBody, 10) + "      - propertyConstraints:\n          ex.q:\n            minCount: 1\n",
+			"under not inside nested": "    propertyConstraints:\n      ex.child:\n        nested:\n          not:\n" + c07Indent(leafBody, 12),
+			"on an inverse path under not": "    not:\n      propertyConstraints:\n        ex.p^:\n" + c07Indent(l.yaml, 10),
+		} {
+			c07Compile(t, fmt.Sprintf("constraint %s %s", l.label, pos), c07Profile("Corpus", one, c07Validation("v1", body)))
+		}
+	}
+	// the comparisons the parser knows beyond the documented four
+	for _, k := range []string{"moreThanProperty", "moreThanOrEqualsToProperty"} {
+		c07Compile(t, "constraint "+k, c07Profile("Corpus", one, c07Validation("v1", "    propertyConstraints:\n      ex.p:\n        "+k+": ex.z\n")))
+		c07Compile(t, "constraint "+k+" under not", c07Profile("Corpus", one, c07Validation("v1", "    not:\n      propertyConstraints:\n        ex.p:\n          "+k+": ex.z\n")))
+	}
 	// uniqueValues: single-alternative paths only (the recorded finding covers alternatives)
 	for _, p := range c07Paths {
 		if !strings.Contains(p.yaml, "|") {
